@@ -36,10 +36,12 @@ def collect(ctx, res, out, tag, spec):
                 res.sample({"rule": rec["rule"], "type": name, "against": rec["what"], "paths": rec.get("paths"),
                             "loc": rec.get("sp")})
                 continue
-            res.count(rule, 1, 0, 0)
             if key in und:
+                # not claimed: listed with its reason, not counted among the obligations of the claim
                 res.notes.append("undecided %s: %s" % (key, und[key]["reason"][:160]))
+                res.analysed["undecided"] = res.analysed.get("undecided", 0) + 1
                 continue
+            res.count(rule, 1, 0, 0)
             for pr in rec["problems"][:2]:
                 res.add(rule, key, "%s %s / %s: %s" % (rec["rule"], name, rec["what"], pr), rec.get("sp") or "")
 
